@@ -30,7 +30,7 @@ Event codes (src = source index, g ↦ worker index by order of first appearance
 (in-loop / remainder) · `st i start n` that send returned · `sn i` batching loop left · `rl i` about to release
 the semaphore (+ wg.Done) · `sc i` stopFileReading · `re i` reader goroutine ends · `cw` wg.Wait returned ·
 `cc` about to close the batch channel · `ws` worker started · `wr i start n` worker received a batch ·
-`lm/li/lu i num` line classified matched/ignored/unmatched · `wd i num n` about to send a match batch ·
+`lm/li/lu i num` line classified matched/ignored/unmatched · `wc m r` counters matchedLines/readLines read before a send · `wd i num n` about to send a match batch ·
 `wt` that send returned · `wx` worker saw the closed channel · `rc` about to close readChan ·
 `cr i num n` consumer received a match batch · `cd` consumer saw the end of the stream.
 -/
@@ -156,7 +156,7 @@ def batchesOf (cfg : Cfg) (tr : List Ev) : Option (List (List (List Line))) :=
 
 /-! ### Worker goroutines -/
 
-def workerKinds : List String := ["ws", "wr", "lm", "li", "lu", "wd", "wt", "wx"]
+def workerKinds : List String := ["ws", "wr", "lm", "li", "lu", "wc", "wd", "wt", "wx"]
 
 /-- goroutine numbers of the workers, in order of first appearance -/
 def workerGs (tr : List Ev) : List Nat :=
@@ -227,6 +227,7 @@ def evLabels (cfg : Cfg) (wg : List Nat) (ps : PSt) (e : Ev) : Option (List Labe
     | some (.busy (x :: _) _) =>
       if x.src == i && x.num == e.a && clsOfKind e.kind == some (harnessCls x) then some [.wproc j] else none
     | _ => none
+  | "wc" => (match s.workers[j]? with | some (.busy [] (_ :: _)) => some [] | _ => none)
   | "wd" =>
     match s.workers[j]? with
     | some (.busy [] acc) => if batchIs acc i e.a e.b then some [.wsend j] else none
@@ -272,12 +273,37 @@ def machine (cfg : Cfg) (wg : List Nat) : Machine PSt :=
 def initSt (cfg : Cfg) (batches : List (List (List Line))) : PSt :=
   { lts := init batches cfg.W, errs := 0, pend := [] }
 
+/-! ### The extractor's counters, as read by the real code just before a send (`wc matched read`)
+
+The pipeline model bumps `nRead`/`nMatched` in the `wproc` step of a line, i.e. BEFORE the worker sends
+the line's match batch (theorem `matched_ge_sum_displayed` of C05 rests on that).  The hooks log a line's
+class right after its counters were bumped, and `wc` right after reading the counters.  So a value read
+by worker `g` at log position `p` (its previous event at `p⁻`) must count every line whose class event
+is logged at a position ≤ `p⁻`, and can count at most the lines logged before `p` plus one line in
+flight per other worker.  This is a property of the log alone (no schedule involved). -/
+
+def isLineKind (k : String) : Bool := k = "lm" || k = "li" || k = "lu"
+
+/-- position of the first `wc` event whose values are outside the bounds -/
+def counterViolation (W : Nat) (tr : Array Ev) : Option Nat :=
+  let count (p : Ev → Bool) (upto : Nat) : Nat := ((tr.toList.take upto).filter p).length
+  (List.range tr.size).find? fun p =>
+    let e := evAt tr p
+    if e.kind = "wc" then
+      let pm := prevPos tr p
+      let loM := count (fun x => x.kind = "lm") (pm + 1)
+      let hiM := count (fun x => x.kind = "lm") p + (W - 1)
+      let loR := count (fun x => isLineKind x.kind) (pm + 1)
+      let hiR := count (fun x => isLineKind x.kind) p + (W - 1)
+      !(decide (loM ≤ e.a) && decide (e.a ≤ hiM) && decide (loR ≤ e.b) && decide (e.b ≤ hiR))
+    else false
+
 /-! ### Search hints (untrusted) -/
 
 /-- The events of this trace that belong to the pipeline machine. -/
 def pipeKinds (agg : Bool) : List String :=
   ["aq", "rs", "so", "se", "sb", "fl", "fe", "st", "sn", "rl", "sc", "re", "cw", "cc", "ws", "wr", "lm", "li", "lu",
-   "wd", "wt", "wx", "rc"] ++ (if agg then ["mr", "sa", "me"] else ["cr", "cd"])
+   "wc", "wd", "wt", "wx", "rc"] ++ (if agg then ["mr", "sa", "me"] else ["cr", "cd"])
 
 def consumerG (tr : List Ev) : Nat :=
   match tr.find? fun e => e.kind = "cr" ∨ e.kind = "cd" ∨ e.kind = "mr" ∨ e.kind = "me" with
